@@ -178,6 +178,10 @@ def judge(ctx, cat, aux, recs, label):
     return verd
 
 
+def canon(t):
+    return sorted((tuple(n["row"]), canon(n["kids"])) for n in t)
+
+
 def _kids(t, row):
     for n in t:
         if n["row"] == row:
@@ -201,6 +205,10 @@ def signature_of(rec, clause):
     if rec.get("rulebook") == "rewrite-values" and clause in ("second-diff-not-empty", "device-did-not-converge"):
         first_old = rec.get("first_old", rec["old"])
         first_new = rec.get("first_new", rec["new"])
+        # ... and the finding is about ORDER only: the device holds exactly the target's lines (a missing or extra line is something else)
+        dev = rec.get("dev")
+        if dev is None or canon(dev) != canon(rec["new"]):
+            return None
         if value_change_under_rewrite(rec["old"], rec["new"]) or value_change_under_rewrite(first_old, first_new):
             return "%rewrite rule with a key narrower than the row: value change of one key (same key REMOVED+ADDED)"
     return None
